@@ -104,6 +104,8 @@ type rateLimiter struct {
 	clientCache    *ClientCache
 	limitStoreLock sync.RWMutex
 	limitStoreMap  map[int]_interface.LimitStore
+	// shards whose store is being loaded (guarded by limitStoreLock)
+	loadingShards map[int]bool
 
 	upstreamController controller.UpstreamController
 	// upstreamLock holds one mutex per upstream; the map itself is read by every status report and
@@ -497,46 +499,62 @@ func (r *rateLimiter) getUpstreamLock(upstream string, create bool) *sync.Mutex 
 }
 
 func (r *rateLimiter) startLeading(shardId int) {
-	r.limitStoreLock.RLock()
+	// The store is published in limitStoreMap only after it has been loaded: requests and cluster events that arrive
+	// while the LIST is in flight must not work on an empty store (they would write fresh conditions over the
+	// persisted ones, and Load would afterwards put the listed copies over what they acknowledged).
+	r.limitStoreLock.Lock()
 	_, ok := r.limitStoreMap[shardId]
-	r.limitStoreLock.RUnlock()
-	if ok {
-		klog.Errorf("Start leading failed, limit store for shard %v already exist", shardId)
+	if ok || r.loadingShards[shardId] {
+		r.limitStoreLock.Unlock()
+		if ok {
+			klog.Errorf("Start leading failed, limit store for shard %v already exist", shardId)
+		}
+		return
+	}
+	if r.loadingShards == nil {
+		r.loadingShards = map[int]bool{}
+	}
+	r.loadingShards[shardId] = true
+	r.limitStoreLock.Unlock()
+	defer func() {
+		r.limitStoreLock.Lock()
+		delete(r.loadingShards, shardId)
+		r.limitStoreLock.Unlock()
+	}()
+
+	limitStore := store.NewLimitStore(r.gatewayClient, r.limitOptions, shardId, r.shardCount)
+	if limitStore == nil {
+		klog.Errorf("Start leading shard %v failed, limit store type %v not found", shardId, r.limitOptions.LimitStore)
+		return
+	}
+	klog.Infof("Start leading shard %v", shardId)
+
+	if err := limitStore.Load(); err != nil {
+		klog.Errorf("Load limit store for shard %v error: %v", shardId, err)
+		stopLimitStoreWithRetry(limitStore, shardId)
 		return
 	}
 
-	var limitStore _interface.LimitStore
 	r.limitStoreLock.Lock()
-	_, ok = r.limitStoreMap[shardId]
-	if !ok {
-		limitStore = store.NewLimitStore(r.gatewayClient, r.limitOptions, shardId, r.shardCount)
-		if limitStore == nil {
-			klog.Errorf("Start leading shard %v failed, limit store type %v not found", shardId, r.limitOptions.LimitStore)
-		} else {
-			klog.Infof("Start leading shard %v", shardId)
-			r.limitStoreMap[shardId] = limitStore
-		}
+	if !r.leaderElector.IsLeader(shardId) {
+		// leadership was lost while the store was loading; stopLeading found nothing to stop
+		r.limitStoreLock.Unlock()
+		klog.Infof("Shard %v is not led any more, drop the loaded limit store", shardId)
+		stopLimitStoreWithRetry(limitStore, shardId)
+		return
 	}
+	r.limitStoreMap[shardId] = limitStore
 	r.limitStoreLock.Unlock()
 
-	if limitStore != nil {
-		err := func() error {
-			err := limitStore.Load()
-			if err != nil {
-				return err
-			}
-			return r.syncUpstreamClustersForShard(shardId)
-		}()
-		if err != nil {
-			klog.Errorf("Load limit store for shard %v error: %v", shardId, err)
+	if err := r.syncUpstreamClustersForShard(shardId); err != nil {
+		klog.Errorf("Load limit store for shard %v error: %v", shardId, err)
 
-			r.limitStoreLock.Lock()
-			if r.limitStoreMap[shardId] == limitStore {
-				delete(r.limitStoreMap, shardId)
-			}
-			r.limitStoreLock.Unlock()
-			stopLimitStoreWithRetry(limitStore, shardId)
+		r.limitStoreLock.Lock()
+		if r.limitStoreMap[shardId] == limitStore {
+			delete(r.limitStoreMap, shardId)
 		}
+		r.limitStoreLock.Unlock()
+		stopLimitStoreWithRetry(limitStore, shardId)
 	}
 }
 
